@@ -834,6 +834,16 @@ impl FixtureDatabase {
     fn find_yield_in_stmt(&self, stmt: &Stmt, line_index: &[usize]) -> Option<usize> {
         match stmt {
             Stmt::Expr(expr_stmt) => self.find_yield_in_expr(&expr_stmt.value, line_index),
+            Stmt::Assign(assign) => self.find_yield_in_expr(&assign.value, line_index),
+            Stmt::AugAssign(aug_assign) => self.find_yield_in_expr(&aug_assign.value, line_index),
+            Stmt::AnnAssign(ann_assign) => ann_assign
+                .value
+                .as_ref()
+                .and_then(|value| self.find_yield_in_expr(value, line_index)),
+            Stmt::Return(ret) => ret
+                .value
+                .as_ref()
+                .and_then(|value| self.find_yield_in_expr(value, line_index)),
             Stmt::If(if_stmt) => {
                 // Check body
                 for s in &if_stmt.body {
@@ -936,17 +946,52 @@ impl FixtureDatabase {
 
     /// Find yield expression and return its line number.
     fn find_yield_in_expr(&self, expr: &Expr, line_index: &[usize]) -> Option<usize> {
+        Self::first_yield_offset(expr).map(|offset| self.get_line_from_offset(offset, line_index))
+    }
+
+    /// Offset of the first `yield` / `yield from` inside an expression: the expression itself
+    /// (`yield x` as a statement) or one in expression position (`got = yield x`,
+    /// `return (yield)`, a yield passed as an argument). Lambdas and comprehensions are scopes of
+    /// their own and are not entered.
+    pub(crate) fn first_yield_offset(expr: &Expr) -> Option<usize> {
+        let first_of = |exprs: &[Expr]| exprs.iter().find_map(Self::first_yield_offset);
         match expr {
-            Expr::Yield(yield_expr) => {
-                let line =
-                    self.get_line_from_offset(yield_expr.range.start().to_usize(), line_index);
-                Some(line)
-            }
-            Expr::YieldFrom(yield_from) => {
-                let line =
-                    self.get_line_from_offset(yield_from.range.start().to_usize(), line_index);
-                Some(line)
-            }
+            Expr::Yield(yield_expr) => Some(yield_expr.range.start().to_usize()),
+            Expr::YieldFrom(yield_from) => Some(yield_from.range.start().to_usize()),
+            Expr::Call(call) => Self::first_yield_offset(&call.func)
+                .or_else(|| first_of(&call.args))
+                .or_else(|| {
+                    call.keywords
+                        .iter()
+                        .find_map(|keyword| Self::first_yield_offset(&keyword.value))
+                }),
+            Expr::Attribute(attr) => Self::first_yield_offset(&attr.value),
+            Expr::BinOp(binop) => Self::first_yield_offset(&binop.left)
+                .or_else(|| Self::first_yield_offset(&binop.right)),
+            Expr::UnaryOp(unaryop) => Self::first_yield_offset(&unaryop.operand),
+            Expr::Compare(compare) => Self::first_yield_offset(&compare.left)
+                .or_else(|| first_of(&compare.comparators)),
+            Expr::Subscript(subscript) => Self::first_yield_offset(&subscript.value)
+                .or_else(|| Self::first_yield_offset(&subscript.slice)),
+            Expr::List(list) => first_of(&list.elts),
+            Expr::Tuple(tuple) => first_of(&tuple.elts),
+            Expr::Set(set) => first_of(&set.elts),
+            Expr::Dict(dict) => dict
+                .keys
+                .iter()
+                .flatten()
+                .find_map(Self::first_yield_offset)
+                .or_else(|| first_of(&dict.values)),
+            Expr::Await(await_expr) => Self::first_yield_offset(&await_expr.value),
+            Expr::BoolOp(boolop) => first_of(&boolop.values),
+            Expr::IfExp(ifexp) => Self::first_yield_offset(&ifexp.test)
+                .or_else(|| Self::first_yield_offset(&ifexp.body))
+                .or_else(|| Self::first_yield_offset(&ifexp.orelse)),
+            Expr::Starred(starred) => Self::first_yield_offset(&starred.value),
+            Expr::Slice(slice) => [&slice.lower, &slice.upper, &slice.step]
+                .into_iter()
+                .flatten()
+                .find_map(|part| Self::first_yield_offset(part)),
             _ => None,
         }
     }
